@@ -19,7 +19,7 @@ PROP = dict(
           "Client.NewUpload/CreateFile/Commit, each a label history (header lines, optional blank line, then result lines "
           "interleaved with `key: value` sets, overwrites, `key:` deletions, blank and non-benchmark lines, attempts to set the "
           "server's own keys) over small key/value pools (values with blanks, tabs, quotes, backslashes, non-ASCII, trailing "
-          "blank, digit strings where bytewise and numeric order differ); benchmark names with /key=value and positional "
+          "blank, digit strings where bytewise and numeric order differ, values of 50-1200 bytes); benchmark names with /key=value and positional "
           "sub-names, empty sub-values, -N suffix; runs of results with identical labels; optional uploader name, file names "
           "with a directory part or empty. Model record = file labels + upload, upload-part (id/<file index>), upload-file "
           "(base name), by, upload-time + name-derived labels + the verbatim line. After every upload the upload is read back "
